@@ -184,9 +184,10 @@ pub enum Op {
     /// fills the cache with many light entries (many victims for one put, many expiries in one sweep)
     Fill { first: u8, count: u8, w: u8, ttl: Option<TtlSel> },
     /// make `k` a key with a time-to-live if it is not, park the sweeper, move the clock `past_ms` + 1 ms beyond the key's
-    /// deadline (the key is now expired and certainly not swept), execute the wrapped write on `k`, release the sweeper,
+    /// deadline (the key is now expired and certainly not swept), if `read_first` read it with every variant (all must
+    /// miss), execute the wrapped write on `k`, release the sweeper,
     /// sweep every shard once and read the key with every variant
-    ExpiredWrite { k: u8, past_ms: u32, write: Box<Op> },
+    ExpiredWrite { k: u8, past_ms: u32, write: Box<Op>, #[serde(default)] read_first: bool },
     /// inside a burst only: let the parked command worker execute exactly one queued command (the oldest)
     StepWorker,
     /// park the command worker, issue the burst without awaiting, release, await everything
@@ -382,7 +383,7 @@ pub fn op_strategy(params: &GenParams) -> BoxedStrategy<Op> {
         choices.push(((advance / 3).max(1), (0u8..=3, prop_oneof![Just(1u32), Just(500), Just(1001), Just(2500)], writes.clone()).prop_map(|(after_reads, by_ms, op)| Op::JumpDuring { after_reads, by_ms, op: Box::new(op) }).boxed()));
     }
     if params.ttl && params.expired_write > 0 {
-        choices.push((params.expired_write, (key.clone(), prop_oneof![Just(0u32), Just(1), Just(998), Just(1500), Just(3000)], writes.clone()).prop_map(|(k, past_ms, write)| Op::ExpiredWrite { k, past_ms, write: Box::new(write) }).boxed()));
+        choices.push((params.expired_write, (key.clone(), prop_oneof![Just(0u32), Just(1), Just(998), Just(1500), Just(3000)], writes.clone(), any::<bool>()).prop_map(|(k, past_ms, write, read_first)| Op::ExpiredWrite { k, past_ms, write: Box::new(write), read_first }).boxed()));
     }
     if params.fill > 0 {
         let ttl: BoxedStrategy<Option<TtlSel>> = if params.ttl { prop_oneof![1 => Just(None), 2 => (0u32..=6).prop_map(|s| Some(TtlSel::Secs(s)))].boxed() } else { Just(None).boxed() };
